@@ -1907,3 +1907,265 @@ class C14(Prop):
             v["ops"] = h.ops[:3] + ["… (%d identical calls)" % (len(h.ops) - 1)]
             out.append(v)
         return out
+
+
+# ------------------------------------------------------------------------------------------ C01 / C02 (tone oracles)
+WIN_NAMES = ["blackman", "blackman2", "blackmanHarris", "blackmanHarris2", "hann", "hann2"]
+WIN_K = {0: (6.159598046201173, 18.926415097606878, 653.4247430458968),
+         1: (9.506235102129398, 79.13120634953742, 1502.2316160588925),
+         2: (8.041443677716476, 55.9506779343387, 898.0287985384213),
+         3: (13.745202940783823, 121.73532586374934, 5964.163279612051),
+         4: (3.3481080887677166, 10.106519434875038, 78.96345249024414),
+         5: (5.38751148378734, 29.69451915489501, 184.82117462266237)}
+# far-stopband leakage (C01) and stopband rejection (C02) of the statement, in dB, per window code
+LEAK_DB = {4: 80, 0: 92, 5: 105, 2: 120, 1: 125, 3: 130}
+REJ_DB = {4: 41, 5: 58, 0: 72, 1: 99, 2: 105, 3: 138}
+AMP_TOL = {4: 0.01, 5: 0.01, 0: 0.001, 1: 0.001, 2: 0.001, 3: 0.001}
+
+
+def calc_cutoff(n, w):
+    k1, k2, k3 = WIN_K[w]
+    return 1.0 / (k1 / n + k2 / n ** 2 + k3 / n ** 3 + 1.0)
+
+
+def fit_tone(y, omega):
+    """least squares y ~ A sin(omega n) + B cos(omega n) + C; returns amplitude, residual rms"""
+    n = len(y)
+    s = [math.sin(omega * k) for k in range(n)]
+    c = [math.cos(omega * k) for k in range(n)]
+    # normal equations 3x3
+    cols = [s, c, [1.0] * n]
+    M = [[sum(a * b for a, b in zip(ci, cj)) for cj in cols] for ci in cols]
+    v = [sum(a * b for a, b in zip(ci, y)) for ci in cols]
+    # gaussian elimination
+    for i in range(3):
+        p = max(range(i, 3), key=lambda r: abs(M[r][i]))
+        M[i], M[p] = M[p], M[i]
+        v[i], v[p] = v[p], v[i]
+        if abs(M[i][i]) < 1e-300:
+            return None
+        for r in range(i + 1, 3):
+            f = M[r][i] / M[i][i]
+            for cc in range(i, 3):
+                M[r][cc] -= f * M[i][cc]
+            v[r] -= f * v[i]
+    x = [0.0] * 3
+    for i in (2, 1, 0):
+        x[i] = (v[i] - sum(M[i][j] * x[j] for j in range(i + 1, 3))) / M[i][i]
+    res = [yy - (x[0] * a + x[1] * b + x[2]) for yy, a, b in zip(y, s, c)]
+    rms = math.sqrt(sum(r * r for r in res) / n)
+    return math.hypot(x[0], x[1]), rms
+
+
+def interp_bound(it, f_cycles, osf):
+    """textbook error bound of the blend on a grid of 1/osf input samples for a unit sine of f cycles/sample"""
+    w = 2 * math.pi * f_cycles / osf
+    return {3: w / 2, 2: w * w / 8, 1: w ** 3 * 0.0642, 0: w ** 4 * 0.0235}[it]
+
+
+class ToneProp(Prop):
+    stop = False
+    n_quick = 40
+    n_thorough = 600
+
+    def scenarios(self, rng):
+        hs = []
+        tries = 0
+        while len(hs) < self.n and tries < self.n * 20:
+            tries += 1
+            fam = rng.random()
+            ty = "f64" if rng.random() < 0.8 else "f32"
+            if fam < 0.7:
+                kind = rng.choice(["sincin", "sincout"])
+                ratio = math.exp(rng.uniform(math.log(1 / 8), math.log(8))) if rng.random() < 0.6 else rng.choice([0.5, 2.0, 48000 / 44100, 44100 / 48000, 1.0, 3.0, 1 / 3])
+                sl = rng.choice([64, 128, 256])
+                win = rng.randint(0, 5)
+                it = rng.randint(0, 3)
+                osf = rng.choice([128, 256, 1024, 2048]) if it in (2, 3) else rng.choice([16, 64, 128, 256])
+                cc = calc_cutoff(sl, win)
+                fcut = cc if rng.random() < 0.6 else rng.choice([0.9, 0.8, 0.95 * cc])
+                fcut = struct_f32(fcut)
+                lowmin = min(1.0, ratio)
+                halfw = (1 - cc) / lowmin
+                chunk = rng.choice([64, 256, 1000, 1024])
+                line = f"{ty} {kind} {hx(ratio)} {hx(1.0)} {it} {sl} {osf} {hx32(fcut)} {win} {chunk} 1 auto"
+                if not self.stop:
+                    edge = fcut - halfw
+                    if edge <= 0.05:
+                        continue
+                    u = rng.uniform(0.05, 0.98)
+                    f_low = u * edge                      # relative to the lower Nyquist
+                    f_in = 0.5 * f_low * lowmin           # cycles per input sample
+                else:
+                    edge = fcut + halfw                   # relative to the lower Nyquist
+                    if ratio < 1:
+                        lo, hi = edge * lowmin, 1.0       # relative to the INPUT Nyquist
+                        if lo >= 0.995:
+                            continue
+                        f_in = 0.5 * rng.uniform(lo + 0.002, 0.998)
+                    else:
+                        # upsampling: images of an in-band tone fall beyond the edge when f_cutoff <= calculate_cutoff
+                        if fcut > cc + 1e-9:
+                            continue
+                        f_in = 0.5 * rng.uniform(0.05, 0.9) * (fcut - halfw if fcut - halfw > 0.1 else 0.1)
+                L = sl
+                n_in = int(6 * L + 3000 / min(1.0, ratio) / 1.0)
+                n_in = min(n_in, 40000)
+                per = chunk if kind == "sincin" else max(1, int(chunk / ratio))
+                ncalls = n_in // per + 2
+                meta = {"fam": "sinc", "ratio": ratio, "win": win, "it": it, "osf": osf, "fcut": fcut, "sl": sl,
+                        "f_in": f_in, "L": L, "cc": cc}
+            else:
+                kind = rng.choice(gen.FFT)
+                ri, ro = rng.choice([(44100, 48000), (48000, 44100), (48000, 96000), (96000, 48000), (16000, 48000),
+                                     (48000, 16000), (2, 3), (3, 2), (1, 1)])
+                g = math.gcd(ri, ro)
+                kmul = rng.choice([1, 2, 4]) if max(ri, ro) // g > 100 else rng.choice([64, 128, 256, 512])
+                fi, fo = kmul * ri // g, kmul * ro // g
+                ratio = ro / ri
+                chunk = fi if kind != "fftout" else fo
+                line = f"{ty} fftio {ri} {ro} {fi} 1" if kind == "fftio" else f"{ty} {kind} {ri} {ro} {chunk} 1 1"
+                lowmin = min(1.0, ratio)
+                cc = calc_cutoff(min(fi, fo), 3)
+                if not self.stop:
+                    edge = cc - (1 - cc) / 1.0
+                    f_in = 0.5 * rng.uniform(0.05, 0.95) * max(0.1, 2 * cc - 1) * lowmin
+                else:
+                    if ratio >= 1:
+                        continue
+                    lo = lowmin
+                    f_in = 0.5 * rng.uniform(min(0.999, lo + 0.01), 0.999)
+                n_in = 8 * fi + int(3000 / lowmin)
+                per = fi
+                ncalls = n_in // per + 2
+                L = fi
+                meta = {"fam": "fft", "ratio": ratio, "win": 3, "it": None, "osf": None, "fcut": cc, "sl": fi,
+                        "f_in": f_in, "L": L, "cc": cc}
+            if ncalls > 3000:
+                continue
+            ops = [f"0 new {line}"] + [f"0 proc - n m s{hx(f_in)} dump"] * ncalls
+            meta.update({"cfg": line, "kind": kind, "ty": ty, "feats": [WIN_NAMES[meta['win']]]})
+            hs.append(History(ops, meta))
+        return hs
+
+    def distinct_key(self, h):
+        return (h.meta["cfg"], round(h.meta["f_in"], 6))
+
+    def measure(self, h):
+        st = streams(h)
+        y = st.get("0")
+        if not y or not y[0]:
+            return None
+        y = y[0]
+        m = h.meta
+        skip = int(3 * m["L"] * m["ratio"]) + 50
+        y = y[skip:len(y) - skip // 3]
+        if len(y) < 400:
+            return None
+        y = y[:6000]
+        omega = 2 * math.pi * m["f_in"] / m["ratio"]
+        return fit_tone(y, omega)
+
+
+def struct_f32(x):
+    import struct
+    return struct.unpack("<f", struct.pack("<f", x))[0]
+
+
+@register
+class C01(ToneProp):
+    pid = "C01"
+    stop = False
+    rule = ("a unit sine below the passband edge f_cutoff - (1 - calculate_cutoff(sinc_len, window))/min(1, ratio) (sinc) or the "
+            "built-in edge (FFT) through the real SincFixedIn/Out (real kernels, all six windows, sinc_len 64-256, all four "
+            "interpolation types, oversampling 16-2048, ratios 1/8..8) and FftFixedIn/Out/InOut, chunked; after the start-up "
+            "transient a least-squares fit at the expected output frequency must give amplitude 1 within 1 % (0.1 % for the "
+            "Blackman/Blackman-Harris families and FFT) and a residual below max(window far-stopband leakage, 2 x textbook "
+            "interpolation bound), f32 to single precision. distinct = (config, tone frequency)")
+    assumptions = COMMON_ASSUME + ["the dB/percent magnitudes are numerical facts about the window functions: measured here, not proved"]
+
+    def oracle(self, h):
+        out = []
+        for r in h.real:
+            if r.split(" ")[0] in ("panic", "abort"):
+                return out
+        r = self.measure(h)
+        if r is None:
+            return out
+        amp, rms = r
+        m = h.meta
+        info = SlotInfo(h.ops[0])
+        f32 = m["ty"] == "f32"
+        atol = 0.001 if m["fam"] == "fft" else AMP_TOL[m["win"]]
+        leak = 10 ** (-(150 if m["fam"] == "fft" else LEAK_DB[m["win"]]) / 20.0)
+        ib = 2 * interp_bound(m["it"], m["f_in"], m["osf"]) if m["fam"] == "sinc" else 0.0
+        floor_ = max(leak, ib, 3e-6 if f32 else 1e-13)
+        h.meta["amp"] = amp
+        h.meta["residual_rms"] = rms
+        if abs(amp - 1.0) > atol + floor_ + (1e-5 if f32 else 0):
+            out.append(viol("C01", h, len(h.ops) - 1, info, "passband-amplitude",
+                            {"amplitude": amp, "tolerance": atol, "f_in": m["f_in"], "ratio": m["ratio"], "window": WIN_NAMES[m["win"]]}))
+        elif rms / math.sqrt(0.5) > 4 * floor_ / math.sqrt(0.5) and rms > 4 * floor_:
+            out.append(viol("C01", h, len(h.ops) - 1, info, "spurious-content",
+                            {"residual_rms": rms, "allowed": floor_, "f_in": m["f_in"], "ratio": m["ratio"],
+                             "window": WIN_NAMES[m["win"]], "interp": m["it"], "osf": m["osf"]}))
+        for v in out:
+            v["ops"] = h.ops[:2] + ["… (%d identical calls)" % (len(h.ops) - 1)]
+        return out
+
+
+@register
+class C02(ToneProp):
+    pid = "C02"
+    stop = True
+    rule = ("a unit sine ABOVE the stopband edge f_cutoff + (1 - calculate_cutoff)/min(1, ratio) (relative to the lower Nyquist) "
+            "and below the input Nyquist through the real down-sampling sinc resamplers: output RMS must be below the window's "
+            "stopband rejection (41/58/72/99/105/138 dB); up-sampling with f_cutoff <= calculate_cutoff: after removing the "
+            "legitimate component the residual (images) must be below the same figure or the interpolation bound; FFT "
+            "down-sampling: > 100 dB. distinct = (config, tone frequency)")
+    assumptions = COMMON_ASSUME + ["the dB magnitudes are numerical facts about the window functions: measured here, not proved"]
+
+    def oracle(self, h):
+        out = []
+        for r in h.real:
+            if r.split(" ")[0] in ("panic", "abort"):
+                return out
+        m = h.meta
+        info = SlotInfo(h.ops[0])
+        f32 = m["ty"] == "f32"
+        rej_db = 100 if m["fam"] == "fft" else REJ_DB[m["win"]]
+        allowed = 10 ** (-rej_db / 20.0)
+        if m["ratio"] < 1:
+            st = streams(h)
+            y = st.get("0")
+            if not y or not y[0]:
+                return out
+            y = y[0]
+            skip = int(3 * m["L"] * m["ratio"]) + 50
+            y = y[skip:len(y) - skip // 3][:6000]
+            if len(y) < 300:
+                return out
+            mean = sum(y) / len(y)
+            rms = math.sqrt(sum((v - mean) ** 2 for v in y) / len(y))
+            level = rms / math.sqrt(0.5)
+            h.meta["stopband_level_db"] = 20 * math.log10(max(level, 1e-300))
+            ib = 2 * interp_bound(m["it"], m["f_in"], m["osf"]) if m["fam"] == "sinc" else 0.0
+            if level > max(allowed * 1.12, ib, 3e-6 if f32 else 1e-13):
+                out.append(viol("C02", h, len(h.ops) - 1, info, "stopband-leak",
+                                {"level_db": h.meta["stopband_level_db"], "required_db": -rej_db, "f_in": m["f_in"],
+                                 "ratio": m["ratio"], "window": WIN_NAMES[m["win"]]}))
+        else:
+            r = self.measure(h)
+            if r is None:
+                return out
+            amp, rms = r
+            ib = 2 * interp_bound(m["it"], m["f_in"], m["osf"]) if m["fam"] == "sinc" else 0.0
+            level = rms / math.sqrt(0.5)
+            h.meta["image_level_db"] = 20 * math.log10(max(level, 1e-300))
+            if level > max(allowed * 1.12, 2 * ib, 3e-6 if f32 else 1e-13):
+                out.append(viol("C02", h, len(h.ops) - 1, info, "image-leak",
+                                {"level_db": h.meta["image_level_db"], "required_db": -rej_db, "f_in": m["f_in"],
+                                 "ratio": m["ratio"], "window": WIN_NAMES[m["win"]], "interp": m["it"], "osf": m["osf"]}))
+        for v in out:
+            v["ops"] = h.ops[:2] + ["… (%d identical calls)" % (len(h.ops) - 1)]
+        return out
